@@ -8,6 +8,9 @@ use binrw::{BinRead, BinWrite};
 use cascette_crypto::{ContentKey, EncodingKey};
 use std::io::{Cursor, Read};
 
+/// Serialized size of a page index entry: first key (16) + page checksum (16)
+const INDEX_ENTRY_SIZE: usize = 32;
+
 /// Page data with entries
 #[derive(Debug, Clone)]
 pub struct Page<T> {
@@ -43,7 +46,8 @@ impl EncodingFile {
         header: &EncodingHeader,
         ckey_index: &[IndexEntry],
     ) -> Result<Vec<Page<CKeyPageEntry>>, EncodingError> {
-        let mut ckey_pages = Vec::with_capacity(header.ckey_page_count as usize);
+        // One page per index entry; the index has already been read from the input
+        let mut ckey_pages = Vec::with_capacity(ckey_index.len());
         let ckey_page_size = header.ckey_page_size();
         let ckey_hash_size = header.ckey_hash_size;
         let ekey_hash_size = header.ekey_hash_size;
@@ -112,7 +116,8 @@ impl EncodingFile {
         header: &EncodingHeader,
         ekey_index: &[IndexEntry],
     ) -> Result<Vec<Page<EKeyPageEntry>>, EncodingError> {
-        let mut ekey_pages = Vec::with_capacity(header.ekey_page_count as usize);
+        // One page per index entry; the index has already been read from the input
+        let mut ekey_pages = Vec::with_capacity(ekey_index.len());
         let ekey_page_size = header.ekey_page_size();
         let ekey_hash_size = header.ekey_hash_size;
 
@@ -215,13 +220,26 @@ impl EncodingFile {
         // Validate header
         header.validate()?;
 
+        // Sizes and counts below come from the header: never allocate more
+        // than the remaining input can hold.
+        let remaining =
+            |cursor: &Cursor<&[u8]>| data.len().saturating_sub(cursor.position() as usize);
+
         // Read ESpec table (comes right after header per CASC specification)
+        if header.espec_block_size as usize > remaining(&cursor) {
+            return Err(EncodingError::Io(std::io::Error::new(
+                std::io::ErrorKind::UnexpectedEof,
+                "ESpec block extends past end of input",
+            )));
+        }
         let mut espec_data = vec![0u8; header.espec_block_size as usize];
         cursor.read_exact(&mut espec_data)?;
         let espec_table = ESpecTable::parse(&espec_data)?;
 
         // Read CKey index
-        let mut ckey_index = Vec::with_capacity(header.ckey_page_count as usize);
+        let mut ckey_index = Vec::with_capacity(
+            (header.ckey_page_count as usize).min(remaining(&cursor) / INDEX_ENTRY_SIZE),
+        );
 
         for _ in 0..header.ckey_page_count {
             // Read index entry manually to avoid binrw issues
@@ -236,7 +254,9 @@ impl EncodingFile {
         let ckey_pages = Self::parse_ckey_pages(&mut cursor, &header, &ckey_index)?;
 
         // Read EKey index
-        let mut ekey_index = Vec::with_capacity(header.ekey_page_count as usize);
+        let mut ekey_index = Vec::with_capacity(
+            (header.ekey_page_count as usize).min(remaining(&cursor) / INDEX_ENTRY_SIZE),
+        );
         for _ in 0..header.ekey_page_count {
             // Read index entry manually to avoid binrw issues
             let mut first_key = [0u8; 16];
